@@ -37,7 +37,7 @@ def schema_terms():
         # derived schemas: the key order of what make_required / + / % build decides which draw
         # goes to which key
         ("mkreq", _D3, None), ("mkreq", _D3, ("c", "a")), ("add", _D3, ("dict", (("z", False, INT),), False)),
-        ("subst", _D3, {"b": "xy"}),
+        ("subst", _D3, {"b": "xy"}), ("subst", _D4, {"a": 5}), ("add", _D4, _D3),
         # flags (whatever the generator makes of them, it must make the same thing every time)
         rx("(?i)ab"), rx("(?i:a)b[a-b]"),
         # a schema whose generation fails half-way (unsupported \s inside a list): what follows
@@ -48,6 +48,8 @@ def schema_terms():
     ]
 
 
+_D4 = ("dict", (("a", False, INT), ("c", False, S("bool")), ("d", False, S("int", ("min", 0), ("max", 7))),
+                ("e", False, S("str", ln(2)))), False)
 _D3 = ("dict", (("a", True, INT), ("b", True, S("str", ln(2))), ("c", True, S("bool")),
                 ("d", True, S("int", ("min", 0), ("max", 7)))), False)
 
